@@ -506,6 +506,19 @@ def the_poll_loop_does_its_work(ctx):
                       and any(a is owner for a in ancestors(c)) for i in cfg.node_of(c)}
             stamps = {i for tg, v, s in attr_stores(pt.node) if tg.attr == 'last_main' and any(a is owner for a in ancestors(s)) for i in cfg.node_of(s)}
             ok = bool(inside) and inside <= side and bool(stamps & side) and not (stamps & other - side)
+            if ok:
+                # ... on EVERY way through the expired side (not only where a division succeeded): from the expired edge no path leaves the
+                # statement without the poll call
+                first = [b for b, lab in cfg.succ[t.id] if lab == ('T' if expired_true else 'F')]
+                after = set()
+                if owner is not None:
+                    own_ids = {i for x in ast.walk(owner) for i in cfg.ids(x)}
+                    after = {b for i in own_ids for b, lab in cfg.succ.get(i, []) if b not in own_ids and lab != 'exc'}
+                every = not (after & (set(first) | cfg.reach(first, avoid=inside, exc=True))) if after else True
+                ctx.check(every, f'{pt.qualname}:an expired main interval is polled on every path', t.ast, 'no way out of the expired branch without callPollFunc(doPoll)',
+                          f'`{src(t.ast)}`: a path through the expired branch advances last_main but skips callPollFunc(doPoll) (e.g. the poll call sits in the else clause of '
+                          'the ZeroDivisionError handling): with a poll interval of 0 - setFastPoll(True, 0), an IO polled as fast as possible - the module is never polled '
+                          'again, without any message', pt)
             ctx.check(ok, f'{pt.qualname}:expired main interval -> doPoll and last_main advanced', t.ast, 'on the expired side: last_main = ..., callPollFunc(doPoll)',
                       f'`{src(t.ast)}`: on the side where the main interval has expired doPoll is not called / last_main is not advanced (or this happens on the other side): '
                       'the module is never polled, or polled without pause', pt)
